@@ -388,8 +388,8 @@ def _limit_per_key(ctx, per_key=3):
 def run(ctx):
     rng = ctx.rng
     _limit_per_key(ctx)
-    ctx.notes.append("every_call_returns_partial: 'no call faults' for all single-object histories with valid scripts; termination of the native "
-                     "loops inside one step and of the redistribution loop is observed with time-outs here (C14 owns the loop's proof)")
+    ctx.notes.append("every_call_returns: total except for two explicit hypotheses (Setup.initReturns = C14 redistribution loop terminates; Setup.stepReturns = poisson_distribution<int> returns, size assumption); "
+                     "both are observed with time-outs here")
     ctx.notes.append("independent_partial: holds for non-overlapping live intervals; the full statement is proved false (not_independent, "
                      "independent_is_false) = known finding two-engines-share-native")
     pool = make_pool(ctx, ctx.n(45, 900))
